@@ -40,3 +40,6 @@ CHECKS['C12'] = (_SYMX + '; BFS characterisation under all deterministic rules; 
 CHECKS['C17'] = (_SYMX + '; rule-vs-edge obligations with symbolic xi/zeta/delays decided by z3; estimator outputs against an independent component reference on every digraph of the bound',
                  'builders: edge u->v iff the supplied rule holds for all symbolic rule inputs; estimators: on every digraph with <= 3 (4) nodes the output is the in/out-component fraction of a largest SCC and within [0,1]; estimate_SIR_prob_size = largest-component fraction for every outcome of the edge draws',
                  'floats as reals; parts (b)-(d) are exhaustive engine-driven enumeration with a small solver share (stated in DESIGN section 8)', 'DESIGN.md 6/C17')
+CHECKS['C18'] = (_SYMX + '; repeat-call pairs under a replaying random source; set iteration order as an engine choice on the AST-transformed module; all other entropy sources poisoned',
+                 'for every simulator configuration in the bound and every path: a second call with the same draw values consumes the same draws with the same arguments and returns identical terms; no other source of randomness or time is touched; continuous-time simulators give identical outputs under every iteration order of every set (superset of all hash seeds) with string labels',
+                 'floats as reals; graphs P3 (K3); event bounds; dict order is insertion order (language guarantee)', 'DESIGN.md 6/C18')
